@@ -673,6 +673,50 @@ func (g *pg) boolE(d int) *ir.Expr {
 			return ir.Bin(ir.OpEq, ir.Access(rec, "b"), ir.Lit(ir.Long(3)))
 		}
 		return g.guarded(d)
+	case 15:
+		// `(if c then A::"x" else B::"y") == B::"y" && <ill-typed>`: the left operand has a union of entity types (typable in
+		// permissive mode only), the comparison can be true, so the right operand has to be checked. A validator that finds
+		// the union disjoint from one of its own members types the guard False, skips the right operand and accepts.
+		if g.slip("entity-union-guard-before-ill-typed") {
+			names := g.entityNames()
+			if len(names) >= 2 {
+				perm := rapid.Permutation(names).Draw(rt, "unionperm")
+				k := 2
+				if len(perm) >= 3 && gen.Chance(rt, 50, "union3") {
+					k = 3
+				}
+				lits := make([]*ir.Expr, k)
+				for i := 0; i < k; i++ {
+					lits[i] = ir.Lit(ir.Ent(perm[i], gen.Pick(rt, g.ids(perm[i]), "unionid")))
+				}
+				union := ir.If(g.boolLeaf(), lits[0], lits[1])
+				if k == 3 {
+					union = ir.If(g.boolLeaf(), union, lits[2])
+					if gen.Chance(rt, 50, "unionnest") {
+						union = ir.If(g.boolLeaf(), lits[2], ir.If(g.boolLeaf(), lits[0], lits[1]))
+					}
+				}
+				member := lits[rapid.IntRange(0, k-1).Draw(rt, "unionmember")].Clone()
+				var guard *ir.Expr
+				switch rapid.IntRange(0, 3).Draw(rt, "unionform") {
+				case 0:
+					guard = ir.Bin(ir.OpEq, union, member)
+				case 1:
+					guard = ir.Bin(ir.OpEq, member, union)
+				case 2:
+					guard = ir.Un(ir.OpNot, ir.Bin(ir.OpNe, union, member))
+				default:
+					guard = ir.Bin(ir.OpContains, ir.SetE(union), member)
+				}
+				bad := gen.Pick(rt, []*ir.Expr{
+					ir.Bin(ir.OpLt, ir.Lit(ir.Long(1)), ir.Lit(ir.Str("a"))),
+					ir.Bin(ir.OpEq, ir.Bin(ir.OpAdd, ir.Lit(ir.Long(1)), ir.Lit(ir.Bool(true))), ir.Lit(ir.Long(2))),
+					ir.Un(ir.OpNot, ir.Lit(ir.Long(1))),
+				}, "unionbad")
+				return ir.Bin(ir.OpAnd, guard, bad)
+			}
+		}
+		return g.guarded(d)
 	default:
 		return g.guarded(d)
 	}
